@@ -21,8 +21,9 @@ class SInt:
     def __init__(self, t): self.t = t
     def __repr__(self): return "SInt(%s)" % self.t
 class SFloat:
-    __slots__ = ("t",)
-    def __init__(self, t): self.t = t
+    """`ratio` = (a, b) z3 Int terms when the value is the float quotient of two (bounded) integers a / b"""
+    __slots__ = ("t", "ratio")
+    def __init__(self, t, ratio=None): self.t = t; self.ratio = ratio
     def __repr__(self): return "SFloat(%s)" % self.t
 class SBool:
     __slots__ = ("t",)
@@ -220,7 +221,12 @@ class Forker:
                 if c is False: continue
                 r = self._check(c)
                 if r == z3.sat: feas.append(lab)
-                elif r != z3.unsat: raise Undecided("feasibility of %s" % (str(c)[:200],))
+                elif r != z3.unsat:
+                    import os
+                    if os.environ.get("VERIF_DEBUG"):
+                        with open("/tmp/unknown_query.smt2", "w") as fh:
+                            self.solver.push(); self.solver.add(c); fh.write(self.solver.sexpr()); self.solver.pop()
+                    raise Undecided("feasibility of %s" % (str(c)[:200],))
             if not feas: raise Infeasible()
             choice = feas[0]
             for alt in feas[1:]:
@@ -229,6 +235,37 @@ class Forker:
         for lab, c in options:
             if lab == choice and c is not True:
                 self.pc.append(c); self.solver.add(c)
+        return choice
+
+    def concretize(self, t, limit=24):
+        """forks over every feasible value of the Int term t (bounded by `limit` values) -> python int on this path"""
+        t = z3.simplify(t)
+        if z3.is_int_value(t): return t.as_long()
+        i = len(self.decisions)
+        if i < len(self.prefix):
+            choice = self.prefix[i]
+        else:
+            vals = []; r = None
+            self.solver.push()
+            while len(vals) <= limit:
+                self.queries += 1; t0 = time.time()
+                r = self.solver.check(); self.solver_s += time.time() - t0
+                if self.stats is not None:
+                    self.stats.queries += 1; self.stats.time += time.time() - t0
+                    if r == z3.sat: self.stats.sat += 1
+                    elif r == z3.unsat: self.stats.unsat += 1
+                    else: self.stats.unknown += 1
+                if r != z3.sat: break
+                v = self.solver.model().eval(t, model_completion=True).as_long(); vals.append(v); self.solver.add(t != v)
+            self.solver.pop()
+            if r == z3.sat: raise Undecided("more than %d values for a symbolic table key" % limit)
+            if r != z3.unsat: raise Undecided("enumerating values of %s" % (str(t)[:100],))
+            if not vals: raise Infeasible()
+            choice = vals[0]
+            for alt in vals[1:]: self.pending.append(self.decisions + [alt])
+        self.decisions.append(choice)
+        c = t == choice
+        self.pc.append(c); self.solver.add(c)
         return choice
 
     def branch(self, cond):
